@@ -5,6 +5,7 @@ pub mod observe;
 pub mod problems;
 pub mod report;
 pub mod sniff;
+pub mod templates;
 pub mod util;
 
 pub use report::{Reporter, Tier};
